@@ -158,6 +158,17 @@ def _expand_items(v, seq):
     out = []
     for k, t, e in seq:
         tt = P.norm(t) if t is not None else None
+        if k == "all" and isinstance(tt, tuple) and tt and tt[0] == "map" and len(tt) >= 3:
+            # `arr.map(|x| f(x))` on a fixed-size array `[T; N]` (N from the array's construction or from the call's const generic
+            # argument): element j is f(arr[j])
+            n_ = lc.known_len(tt[1])
+            me = v.ev.site_effect.get(tt[3]) if len(tt) > 3 else None
+            if n_ is None and me is not None and (me.raw.get("f") or "").startswith("core::array") and me.cga and isinstance(me.cga[-1], int):
+                n_ = me.cga[-1]
+            if isinstance(n_, int) and n_ <= 8:
+                for j in range(n_):
+                    out.append(("one", v.fr.index(tt, ("c", j, None)), e))
+                continue
         if k == "all" and isinstance(tt, tuple) and tt and tt[0] == "from_fn":
             ne = v.ev.site_effect.get(tt[2]) if len(tt) > 2 else None
             n_ = ne.cga[-1] if (ne is not None and ne.cga and isinstance(ne.cga[-1], int)) else None
@@ -670,7 +681,13 @@ def analyse(ck, prog=None):
     pad = [it for it in after if it not in null_items]
     okp = len(pad) == 1 and pad[0][0] == "one" and P.const_of(pad[0][1]) == 0
     bound = None
-    if okp:
+    resized = [it for it in pad if it[0] == "mutate:resize"]
+    if len(pad) == 1 and len(resized) == 1 and len(resized[0][2].args) == 3 and P.const_of(resized[0][2].args[2]) == 0 and not circ.loops_of(resized[0][2]) and not [c for c in resized[0][2].ctrl if c[0] == "case"]:
+        # `output.resize(pi_len(n_leaf), zero)`: pads with zeros up to the bound; it cannot truncate because the produced length
+        # 8 + 10n + 4n never exceeds the bound (obligation pb/out/length below, evaluated for every n)
+        okp, bound = True, P.norm(resized[0][2].args[1])
+        pad_is_resize = True
+    elif okp:
         e = pad[0][2]
         cases = [c for c in e.ctrl if c[0] == "case"]
         okp = len(cases) == 1 and not circ.loops_of(e)
@@ -689,7 +706,7 @@ def analyse(ck, prog=None):
                 bad.append((nv, val, used))
         ob.add({"C06", "C36"}, not bad and Kc["LEAF_PI_LEN"] == 21, "IVL", "pb/out/length", "padded length = 21*n + 8 and header(8) + 10n + 4n fits, for every n in 1..64 (evaluated on the extracted layout terms)", loc(pad[0][2]), bad[:4])
     # no mutation of the output vector other than the appends above
-    muts = [k for k, t, e in seq if k.startswith("mutate")]
+    muts = [k for k, t, e in seq if k.startswith("mutate") and not (k == "mutate:resize" and resized and bound is not None)]
     ob.add({"C06"}, not muts and len(items) == 5 + 5 + 1 + 1, "ORDER", "pb/out/append-only", "the output vector is only appended to, by exactly the 12 sites above", loc0, [k for k, _, _ in items])
 
     # ---------------------------------------------------------------- free witnesses
